@@ -572,12 +572,13 @@ Proof.
         assert (k = length pre).
         { apply (pos_inj g). apply Nat.lt_le_incl. eapply nth_error_lt; eauto. unfold g; rewrite app_length; simpl; lia.
           unfold g at 2. rewrite pos_split. lia. }
-        subst k. rewrite Hn0 in H. inversion H; subst. discriminate.
+        assert (Hc : Some (OpPushExcHandler, [a0; b0; c0; d]) = Some (o, [a; b])) by (rewrite <- H; subst k; exact Hn0).
+        inversion Hc; subst; discriminate.
       + intros k a0 b0 c0 d H Hp. exfalso.
         apply (pos_gap g k (length pre) _ 2 H); simpl; try lia. unfold g; rewrite app_length; simpl; lia.
         unfold g at 1. rewrite pos_split. lia.
     - intros k a0 b0 c0 d H. apply (nth_error_replace pre (o, [a; b])) in H. destruct H as [[_ H]|[_ H]]; auto.
-      inversion H; subst. discriminate. }
+      inversion H; subst; discriminate. }
   hc HC. destruct J.
   assert (Hsp : Forall2 sp g g').
   { apply Forall2_app. apply F2sp_refl. constructor; [|apply F2sp_refl]. right. simpl. destruct o; try discriminate; auto. }
